@@ -422,6 +422,29 @@ func rulesC17(e *Engine, r *Report) {
 	// ---------------------------------------------------------------- R17.9
 	r.Rule("R17.9", "a tag without a method is an http tag: `matches no non-HTTP tag` is decided from tag.Method, so before the sender builds its ignore list the default (http) has reached every configured tag - the defaulting loop over conf.Tags is left only at the end of the list and stores http wherever the method is empty, and init() reads the methods after setDefaults()")
 	e.checkMethodDefault(r, "R17.9")
+	// ---------------------------------------------------------------- R17.10
+	r.Rule("R17.10", "the cache remembers the version that was queued: when FileCache.Add meets a name it already holds, the entry takes size, modification time, metadata and hash of the file handed in - all four, on every path that returns from that branch - so that the next scan compares against the version just queued (an entry left with the old mtime makes every later scan see `changed` and queue the same version again, also after a restart)")
+	if fn := needFn(e, r, "R17.10", "cache.(*JSON).add"); fn != nil {
+		ent := "p0.Files[invoke(sts.Hashed.GetName)(p1)]#0"
+		cls := labeler(
+			C("p0.Files[invoke(sts.Hashed.GetName)(p1)]#1", "existing"),
+			I("store("+ent+".Size = invoke(sts.Hashed.GetSize)(p1))", "size"),
+			I("store(&new(marshal.NanoTime).Time = invoke(sts.Hashed.GetTime)(p1))", "timeVal"),
+			I("store("+ent+".Time = new(marshal.NanoTime))", "time"),
+			I("store("+ent+".Meta = invoke(sts.Hashed.GetMeta)(p1))", "meta"),
+			I("store("+ent+".Hash = invoke(sts.Hashed.GetHash)(p1))", "hash"),
+		)
+		n := 0
+		for _, rw := range e.returnWorlds(r, "R17.10", fn, cls) {
+			if !rw.W.Has("existing") {
+				continue
+			}
+			n++
+			r.Check(rw.W.HasAll("size", "time", "timeVal", "meta", "hash"), "R17.10", "cache.(*JSON).add: an existing entry takes size, mtime, meta and hash of the new version "+rw.W.String(), e.InstrPos(rw.In),
+				"a version field of the cached entry keeps the old version's value", 1, rw.W.String())
+		}
+		r.Min("R17.10", "returns of the existing-entry branch of add", n, 1)
+	}
 }
 
 // checkNoSharedAppend: a sender-private list that is appended to must not be
